@@ -109,3 +109,6 @@ pub fn vx_sort_range_u64(v: &mut Vec<u64>, a: usize, b: usize)
 { v[a..b].sort_unstable() }
 // usize::try_from(u64).unwrap() on a 64-bit target
 pub fn vx_u64_to_usize(x: u64) -> (r: usize) ensures r == x { x as usize }
+pub fn vx_min_usize(a: usize, b: usize) -> (r: usize) ensures r == (if a <= b { a } else { b }) { if a <= b { a } else { b } }
+pub fn vx_min_i64(a: i64, b: i64) -> (r: i64) ensures r == (if a <= b { a } else { b }) { if a <= b { a } else { b } }
+pub fn vx_max_i64(a: i64, b: i64) -> (r: i64) ensures r == (if a >= b { a } else { b }) { if a >= b { a } else { b } }
